@@ -88,6 +88,39 @@ def has_report(res):
             or 'Result:' in out or '"passed":' in out or 'Wrote policy to' in out)
 
 
+GEX1_NAME, GEX256_NAME = 'diffie-hellman-group-exchange-sha1', 'diffie-hellman-group-exchange-sha256'
+
+
+def shown_gex_sizes(res):
+    """The group-exchange modulus sizes a standard audit's report shows -> (known?, sha1 bits or 0, sha256 bits or 0).
+    known is False when the run has no algorithm report to read them from (policy audits, -M, -g, client audits, failed runs)."""
+    import re
+    argv = res.get('argv') or []
+    if any(a in argv for a in ('-M', '--make-policy', '-P', '--policy', '-g', '--gex-test', '-c', '--client-audit', '-T', '--targets')):
+        return False, 0, 0
+    out = res.get('stdout') or ''
+    sizes = {GEX1_NAME: 0, GEX256_NAME: 0}
+    if '-j' in argv or '-jj' in argv:
+        try:
+            doc = json.loads(out)
+        except ValueError:
+            return False, 0, 0
+        if not isinstance(doc, dict) or 'kex' not in doc:
+            return False, 0, 0
+        for a in doc['kex']:
+            if a.get('algorithm') in sizes and isinstance(a.get('keysize'), int):
+                sizes[a['algorithm']] = a['keysize']
+        return True, sizes[GEX1_NAME], sizes[GEX256_NAME]
+    if '(kex) ' not in out:
+        return False, 0, 0
+    from harness import report as _report
+    for line in _report.strip_ansi(out).split('\n'):
+        m = re.match(r'\(kex\) (\S+)\s+\((\d+)-bit\)', line)
+        if m and m.group(1) in sizes and not sizes[m.group(1)]:
+            sizes[m.group(1)] = int(m.group(2))
+    return True, sizes[GEX1_NAME], sizes[GEX256_NAME]
+
+
 def trace_events(res):
     nb = {}
     evs = []
@@ -141,8 +174,9 @@ def trace_events(res):
                 evs.append({'e': 'sendother', 'type': str(t)})
         elif k == 'close':
             evs.append({'e': 'close', 'nb': nb.get(e['n'], False), 'banner': e['n'] in sawbanner})
+    known, s1, s256 = shown_gex_sizes(res)
     evs.append({'e': 'exit', 'status': res['exit'] if res['exit'] is not None else -1, 'report': has_report(res), 'open': res.get('open', 0),
-                'waits': res.get('waits', 0)})
+                'waits': res.get('waits', 0), 'sizes': {'known': known, 'sha1': s1, 'sha256': s256}})
     return evs
 
 
